@@ -13,6 +13,8 @@
 (*                            b = index of class B                          *)
 (*                  "func"    helper(hard..., **kwargs), helper = chain[1]  *)
 (*                  "meth"    self.m(hard..., **kwargs)                     *)
+(*                  "new"     B(hard..., **kwargs): a new instance of the   *)
+(*                            (earlier) class b, also from a helper function*)
 (*                  "next"    (functions of a chain) the next function      *)
 (*            hard  names given as hard-coded keyword arguments at the call *)
 (*            q     names taken BEFORE the call with kwargs.pop(n, dflt)    *)
@@ -115,8 +117,9 @@ Arrive(sig, K) == LET own == NamesOf(sig.ps) IN
 \* what the callee binds for the hard-coded names was not passed by our caller
 Back(r, mine, hard) == IF r.ok THEN Ok(mine \cup {b \in r.bind : b.n \notin hard}) ELSE Fail
 
-RECURSIVE RefFn(_, _, _, _)
-RefFn(chain, j, cid, K) ==
+RECURSIVE RefFn(_, _, _, _, _)
+RECURSIVE RefInit(_, _, _, _)
+RefFn(P, chain, j, cid, K) ==
   LET s      == chain[j]
       a      == Arrive(s, K)
       popped == a.rest \cap SetOf(s.fw.q)
@@ -126,13 +129,14 @@ RefFn(chain, j, cid, K) ==
   IN IF ~a.ok THEN Fail
      ELSE IF ~s.kw THEN Ok(Named(s, FLab[cid][j], K))
      ELSE IF s.fw.k = "ignore" THEN Ok(mine)
-     ELSE IF hard \cap rest # {} \/ j >= Len(chain) THEN Fail
-     ELSE Back(RefFn(chain, j + 1, cid, rest \cup hard), mine, hard)
+     ELSE IF hard \cap rest # {} THEN Fail
+     ELSE IF s.fw.k = "new" THEN Back(RefInit(P, Mro(P, s.fw.b), 1, rest \cup hard), mine, hard)
+     ELSE IF j >= Len(chain) THEN Fail
+     ELSE Back(RefFn(P, chain, j + 1, cid, rest \cup hard), mine, hard)
 
 RefMeth(P, Y, K) == LET a == Arrive(P.classes[Y].m, K) IN IF a.ok THEN Ok(Named(P.classes[Y].m, MLab[Y], K)) ELSE Fail
 
 \* the __init__ that runs when the search starts at position pos of the runtime MRO `mro` of the instantiated class
-RECURSIVE RefInit(_, _, _, _)
 RefInit(P, mro, pos, K) ==
   LET k == DefIn(P, mro, pos, "init") IN
   IF k = 0 THEN (IF K = {} THEN Ok({}) ELSE Fail)              \* object.__init__() takes no keyword
@@ -152,12 +156,31 @@ RefInit(P, mro, pos, K) ==
           ELSE CASE fw.k = "super0" -> Back(RefInit(P, mro, k + 1, send), mine, hard)
                  [] fw.k = "superB" -> LET kb == PosIn(mro, fw.b) IN
                                        IF kb = 0 THEN Fail ELSE Back(RefInit(P, mro, kb + 1, send), mine, hard)
-                 [] fw.k = "func"   -> IF Len(fw.chain) = 0 THEN Fail ELSE Back(RefFn(fw.chain, 1, X, send), mine, hard)
+                 [] fw.k = "func"   -> IF Len(fw.chain) = 0 THEN Fail ELSE Back(RefFn(P, fw.chain, 1, X, send), mine, hard)
                  [] fw.k = "meth"   -> LET y == DefIn(P, mro, 1, "m") IN       \* self.m: looked up on type(self)
                                        IF y = 0 THEN Fail ELSE Back(RefMeth(P, mro[y], send), mine, hard)
+                 [] fw.k = "new"    -> Back(RefInit(P, Mro(P, fw.b), 1, send), mine, hard)   \* a fresh object of class b
                  [] OTHER           -> Fail
 
-Run(P, comp, K) == IF comp.k = "cls" THEN RefInit(P, Mro(P, comp.c), 1, K) ELSE RefFn(comp.chain, 1, 0, K)
+\* the classes whose __init__ a resolver could be tempted to look at when the search starts at position pos of mro
+\* (structure only): the real target of the forwarding call, and -- for any def that takes **kwargs -- the next
+\* __init__ of the MRO, which is where the assumptions resolver would go.  A class outside this set has no influence
+\* on the component: deleting its __init__ gives a smaller program of the same instance.
+RECURSIVE Entered(_, _, _, _)
+Entered(P, mro, pos, fuel) ==
+  LET k == DefIn(P, mro, pos, "init") IN
+  IF k = 0 \/ fuel = 0 THEN {}
+  ELSE LET X == mro[k]  I == P.classes[X].init  fw == I.fw
+           ViaChain(ch) == UNION {IF ch[j].kw /\ ch[j].fw.k = "new" THEN Entered(P, Mro(P, ch[j].fw.b), 1, fuel - 1) ELSE {} : j \in DOMAIN ch}
+       IN {X} \cup (IF ~I.kw THEN {}
+                    ELSE Entered(P, mro, k + 1, fuel - 1) \cup
+                         CASE fw.k = "superB" -> LET kb == PosIn(mro, fw.b) IN IF kb = 0 THEN {} ELSE Entered(P, mro, kb + 1, fuel - 1)
+                           [] fw.k = "new"    -> Entered(P, Mro(P, fw.b), 1, fuel - 1)
+                           [] fw.k = "func"   -> ViaChain(fw.chain)
+                           [] OTHER           -> {})
+AllMatter(P, c) == {x \in DOMAIN P.classes : P.classes[x].init.has} \subseteq Entered(P, Mro(P, c), 1, 2 * Len(P.classes) + 2)
+
+Run(P, comp, K) == IF comp.k = "cls" THEN RefInit(P, Mro(P, comp.c), 1, K) ELSE RefFn(P, comp.chain, 1, 0, K)
 
 (***************************************************************************)
 (* Ref layer 3: the property's vocabulary, derived from the call semantics *)
@@ -167,7 +190,7 @@ Run(P, comp, K) == IF comp.k = "cls" THEN RefInit(P, Mro(P, comp.c), 1, K) ELSE 
 (***************************************************************************)
 RunTable(P, comp, U) ==
   IF comp.k = "cls" THEN LET mro == Mro(P, comp.c) IN {[K |-> K, r |-> RefInit(P, mro, 1, K)] : K \in SUBSET U}
-  ELSE {[K |-> K, r |-> RefFn(comp.chain, 1, 0, K)] : K \in SUBSET U}
+  ELSE {[K |-> K, r |-> RefFn(P, comp.chain, 1, 0, K)] : K \in SUBSET U}
 Succ(T)      == {x \in T : x.r.ok}                                    \* the calls that succeed
 OKSets(T)    == {e.K : e \in Succ(T)}
 Callable(T)  == Succ(T) # {}                                          \* some call succeeds (a set test: safe inside actions)
@@ -181,7 +204,7 @@ RefOffer(T)  == Bindings(T)
 \* the keyword universe of a program: every name that occurs in it (declared, popped, hard-coded) and one that does not
 ChainNames(chain) == UNION {NamesOf(chain[j].ps) \cup SetOf(chain[j].fw.q) \cup SetOf(chain[j].fw.hard) : j \in DOMAIN chain}
 ClassNames(cl)    == NamesOf(cl.init.ps) \cup NamesOf(cl.m.ps) \cup SetOf(cl.init.fw.q) \cup SetOf(cl.init.fw.hard) \cup ChainNames(cl.init.fw.chain)
-Universe(P, comp) == {"zz"} \cup (IF comp.k = "fn" THEN ChainNames(comp.chain) ELSE UNION {ClassNames(P.classes[c]) : c \in DOMAIN P.classes})
+Universe(P, comp) == {"zz"} \cup (IF comp.k = "fn" THEN ChainNames(comp.chain) ELSE {}) \cup UNION {ClassNames(P.classes[c]) : c \in DOMAIN P.classes}
 
 \* laws of the reference itself (checked by TLC on the bounded instance; they are what makes "the set of legal
 \* keywords" well defined: keywords are routed independently of each other)
@@ -317,6 +340,7 @@ AstKwargs(PT, parent, fw, ms, plab, ctx) ==
           [] fw.k = "meth"   ->                                                          \* get_node_component:655-658  self.parent
                LET r == GspClass(PT, parent, "m", ms) IN
                IF PT.top # 0 /\ DefOf(PT, parent, "m") # DefOf(PT, PT.top, "m") THEN [r EXCEPT !.ev = @ \cup {"static-dispatch"}] ELSE r
+          [] fw.k = "new"    -> GspClass([PT EXCEPT !.top = fw.b], fw.b, "init", ms)      \* get_node_component:648-652: a class of the module
           [] fw.k = "next"   -> IF ctx.j >= Len(ctx.chain) THEN Res(<< >>, ms, {})
                                 ELSE GspFn(ctx.chain, ctx.j + 1, ctx.cid, [PT |-> PT, ms |-> ms])
           [] OTHER           -> Res(<< >>, ms, {})
